@@ -34,6 +34,14 @@ def main():
     patch = os.path.join(src, f"patch_{n}.diff")
     demo = os.path.join(src, f"demo_{n}_test.go")
     meta_path = os.path.join(src, f"meta_{n}.json")
+    if n == "-":
+        # a kept change in /verif/seeded/<id>/ (re-validation, e.g. after its patch was rebased)
+        patch, demo, meta_path = os.path.join(src, "patch.diff"), os.path.join(src, "demo_test.go"), os.path.join(src, "meta.json")
+        n = "0"
+        if os.path.exists(os.path.join(src, "delay.patch")) and "--delay" not in sys.argv:
+            sys.argv += ["--delay", os.path.join(src, "delay.patch")]
+        if os.path.exists(os.path.join(src, "delay_baseline.patch")) and "--delay-base" not in sys.argv:
+            sys.argv += ["--delay-base", os.path.join(src, "delay_baseline.patch")]
     meta = json.load(open(meta_path)) if os.path.exists(meta_path) else {}
     out = {"source": src, "n": n, "property": meta.get("property")}
     demo_src = open(demo).read()
